@@ -14,28 +14,28 @@ Log == ndJsonDeserialize("io.ndjson")
 
 VARIABLES i, bad, judged
 
-(* Post reads the context only through (ctx = "neg"): judged once for the negated and once for the other contexts *)
-Fails(k) ==
-    LET r == Log[k] IN
-    UNION {LET o   == r.obs[j]
-               cs  == {x \in {o.ctxs[n] : n \in 1..Len(o.ctxs)} : WF(r.lit, x)}
-               pos == cs \ {"neg"}
-               badPos == pos # {} /\ ~Post(r.lit, CHOOSE x \in pos : TRUE, o)
-               badNeg == "neg" \in cs /\ ~Post(r.lit, "neg", o)
-           IN {[idx |-> k, obs |-> j, ctx |-> x, key |-> Key(r.lit, x)] :
-                  x \in (IF badPos THEN pos ELSE {}) \cup (IF badNeg THEN {"neg"} ELSE {})}
-          : j \in 1..Len(r.obs)}
-
-InDomain(k) == LET r == Log[k] IN
-    LET Cnt[j \in 0..Len(r.obs)] == IF j = 0 THEN 0
-                                    ELSE Cnt[j - 1] + Cardinality({x \in {r.obs[j].ctxs[n] : n \in 1..Len(r.obs[j].ctxs)} : WF(r.lit, x)})
-    IN Cnt[Len(r.obs)]
+(* Post reads the context only through (ctx = "neg"): judged once for the negated and once for the other contexts. *)
+(* <<failing (literal, context) pairs, number of pairs in the domain>> of record k                                   *)
+Judge(k) ==
+    LET r   == Log[k]
+        a   == An(r.lit)
+        dom == DomCtx(a)
+        J(j) == LET o   == r.obs[j]
+                    cs  == {o.ctxs[n] : n \in 1..Len(o.ctxs)} \cap dom
+                    pos == cs \ {"neg"}
+                    badPos == pos # {} /\ ~PostA(a, CHOOSE x \in pos : TRUE, o)
+                    badNeg == "neg" \in cs /\ ~PostA(a, "neg", o)
+                IN [n |-> Cardinality(cs),
+                    bad |-> {[idx |-> k, obs |-> j, ctx |-> x, key |-> Key(r.lit, x)] :
+                                x \in (IF badPos THEN pos ELSE {}) \cup (IF badNeg THEN {"neg"} ELSE {})}]
+        js == [j \in 1..Len(r.obs) |-> J(j)]
+        Sum[j \in 0..Len(r.obs)] == IF j = 0 THEN 0 ELSE Sum[j - 1] + js[j].n
+    IN [bad |-> UNION {js[j].bad : j \in 1..Len(r.obs)}, n |-> Sum[Len(r.obs)]]
 
 Init == i = 1 /\ bad = {} /\ judged = 0
 Next == /\ i <= Len(Log)
         /\ i' = i + 1
-        /\ bad' = bad \cup Fails(i)
-        /\ judged' = judged + InDomain(i)
+        /\ LET res == Judge(i) IN bad' = bad \cup res.bad /\ judged' = judged + res.n
 
 Report == i <= Len(Log) \/ PrintT(ToJson([n |-> Len(Log), judged |-> judged, bad |-> bad]))
 =============================================================================
